@@ -1,5 +1,6 @@
 import HappyProofs.C05.Equiv
 import HappyProofs.C05.Idle
+import HappyProofs.C05.Reject
 import HappyModel.C05.Driver
 /-!
 # C05 — property theorems
@@ -237,6 +238,44 @@ example : ∀ p ∈ witnessParts, LogInv p := by
   intro p hp
   simp only [witnessParts, List.mem_cons, List.not_mem_nil, or_false] at hp
   rcases hp with rfl | rfl <;> exact LogInv.init _ _ _ _
+
+/-! ## the hypothesis "cross-partition delays respect the declared minimum" as judged on observations -/
+
+/-- what the decidable `validConf` of the Spec says, clause by clause: every observed cross-partition
+    emission went over a declared link, with a delay of at least the (effective) minimum of every declaration
+    of that link, and a requested window is at most every declared minimum. -/
+theorem valid_conf_respects_minimum (c : ConfObs) (hv : validConf c = true) :
+    (∀ s ∈ c.sends, c.linked s.1 s.2.1 = true ∧
+        ∀ l ∈ c.links, l.src = s.1 → l.dst = s.2.1 → l.eff ≤ s.2.2) ∧
+    (∀ w, c.window = some w → ∀ l ∈ c.links, w ≤ l.decl) ∧
+    (∀ l ∈ c.links, 0 < l.decl ∧ 0 < l.eff ∧ l.src ≠ l.dst) := by
+  unfold validConf at hv
+  simp only [Bool.and_eq_true, List.all_eq_true] at hv
+  obtain ⟨⟨⟨hl, _⟩, hw⟩, hs⟩ := hv
+  refine ⟨?_, ?_, ?_⟩
+  · intro s hs'
+    have h1 := hs s hs'
+    refine ⟨h1.1, ?_⟩
+    intro l hl' e1 e2
+    have h2 := h1.2 l hl'
+    simpa [e1, e2] using h2
+  · intro w hw'
+    rw [hw'] at hw
+    simp only [Bool.and_eq_true, List.all_eq_true, decide_eq_true_eq] at hw
+    exact hw.2
+  · intro l hl'
+    have h1 := hl l hl'
+    simp only [decide_eq_true_eq, bne_iff_ne, ne_eq] at h1
+    exact ⟨h1.1.1.1.1, h1.1.1.1.2, h1.1.1.2⟩
+
+/-- 0.067 s declared on both directions, every hop takes exactly the minimum: valid, so an aborted run is a
+    violation; one nanosecond less: outside the hypothesis, the rejection is correct -/
+example :
+    judgeRejected { nparts := 2, links := [⟨0, 1, 67000000, 67000000⟩, ⟨1, 0, 67000000, 67000000⟩], window := none,
+                    refs := [(0, 1), (1, 0)], sends := [(0, 1, 67000000), (1, 0, 67000000)] }
+      = some "par/valid-configuration-rejected" ∧
+    judgeRejected { nparts := 2, links := [⟨0, 1, 67000000, 67000000⟩, ⟨1, 0, 67000000, 67000000⟩], window := none,
+                    refs := [(0, 1), (1, 0)], sends := [(0, 1, 67000000), (1, 0, 66999999)] } = none := by decide
 
 end HappyModel.C05
 
